@@ -462,17 +462,6 @@ func (c *Ctx) elemNonNil(fn *ssa.Function, call *ssa.Call, depth int) string {
 	if core.MustHold(fn, notNil(path, false))[call.Block()] {
 		return "on every path IsNil() of the same Value was found false"
 	}
-	// a parameter: look at the callers
-	var param *ssa.Parameter
-	pi := -1
-	for i, p := range fn.Params {
-		if ssa.Value(p) == recv {
-			param, pi = p, i
-		}
-	}
-	if param == nil || depth >= 3 {
-		return ""
-	}
 	underPointer := false
 	for _, cond := range core.CondsAt(call.Block()) {
 		if bin, ok := cond.V.(*ssa.BinOp); ok && (bin.Op == token.EQL || bin.Op == token.NEQ) {
@@ -490,6 +479,22 @@ func (c *Ctx) elemNonNil(fn *ssa.Function, call *ssa.Call, depth int) string {
 				}
 			}
 		}
+	}
+	// `if v.Kind() == Pointer && v.IsNil() { return }` ... `if v.Kind() == Pointer { v.Elem() }`: on every path the Value
+	// was found not to be nil or not to be a pointer, and this Elem() runs only where it is a pointer
+	if underPointer && core.MustHold(fn, notNil(path, true))[call.Block()] {
+		return "this Elem() runs only under Kind() == Pointer of the Value, and on every path the Value was found not to be a pointer or IsNil() of it false"
+	}
+	// a parameter: look at the callers
+	var param *ssa.Parameter
+	pi := -1
+	for i, p := range fn.Params {
+		if ssa.Value(p) == recv {
+			param, pi = p, i
+		}
+	}
+	if param == nil || depth >= 3 {
+		return ""
 	}
 	sites := 0
 	for _, g := range c.M.Funcs {
@@ -554,6 +559,15 @@ func isStructFieldValue(v ssa.Value, seen map[ssa.Value]bool) bool {
 		switch reflectValueMethod(x) {
 		case "Field", "FieldByName", "FieldByIndex", "FieldByIndexErr", "FieldByNameFunc":
 			return true
+		}
+		// a helper of the module that hands a field back (a field walk that allocates embedded pointers, say)
+		if helper := core.StaticBody(&x.Call); helper != nil && helper.Signature.Results().Len() >= 1 &&
+			typeStr(helper.Signature.Results().At(0).Type()) == "reflect.Value" {
+			for _, r := range core.ReturnsOf(helper) {
+				if isStructFieldValue(core.RetVal(r, 0), seen) {
+					return true
+				}
+			}
 		}
 	case *ssa.Extract:
 		return isStructFieldValue(x.Tuple, seen)
